@@ -108,8 +108,10 @@ func NewHTTPReverseProxy(option HTTPReverseProxyOptions, vhostRouter *Routers) *
 		// Create a connection to one proxy routed by route policy.
 		Transport: &http.Transport{
 			ResponseHeaderTimeout: rp.responseHeaderTimeout,
-			IdleConnTimeout:       60 * time.Second,
-			MaxIdleConnsPerHost:   5,
+			// A transparent proxy: don't add "Accept-Encoding: gzip" to requests and don't decode responses.
+			DisableCompression:  true,
+			IdleConnTimeout:     60 * time.Second,
+			MaxIdleConnsPerHost: 5,
 			DialContext: func(ctx context.Context, network, addr string) (net.Conn, error) {
 				return rp.CreateConnection(ctx.Value(RouteInfoKey).(*RequestRouteInfo), true)
 			},
